@@ -34,7 +34,7 @@ def _patterns_C08(rep, spec, verbose=False, only=None):
     # integer division and remainder (every integer kind, variable and constant operands, compound assignment): the
     # divide-by-zero panic is part of the pattern obligations shared with C06
     obls += patterns.run_patterns(rep, spec, tier=rep.tier, verbose=verbose, only=only, which=('grid', 'compound'),
-                                  select=lambda c: re.search(r'_(div|rem)_', c.name) is not None)
+                                  select=lambda c: re.search(r'_(div|rem)_|^S_sh[lr]_\w+_by_int', c.name) is not None)       # (and shifts by counts of a signed type: the negative-count panic)
     return obls
 
 def _sites_C17(rep, spec, verbose=False, only=None):
